@@ -36,10 +36,6 @@ ALLOW = {
         (1, "fixed 2-byte window of a local array"),
     (r"<emit_term::hex_slice::HexSlice<'a> as core::fmt::Display>::fmt$", "call:unwrap"):
         (1, "from_utf8 of ASCII hex digits"),
-    (r"^emit_term::write_timeseries$", "assert:overflow:Sub"):
-        (1, "sparkline bucket arithmetic driven by float values (declared not decided)"),
-    (r"^emit_term::write_timeseries$", "assert:bounds"):
-        (1, "BLOCKS[idx] with idx from float arithmetic clamped by the code (declared not decided)"),
     (r"^<emit_file::EventBatch as emit_batcher::Channel>::len$", "assert:overflow:Sub"):
         (1, "index <= bufs.len() is the cursor invariant (C10.R7/R8)"),
     (r"^emit_file::EventBatch::push$", "assert:overflow:Add"):
@@ -90,7 +86,7 @@ def run(chk):
                 "begin/end balanced.")
     chk.trust("rustc nightly; sval/sval_json/sval_protobuf/value-bag behaviour (dependencies are not analysed)")
     chk.assume("structure preservation, 128-bit/non-finite number rendering and JSON well-formedness are the work of dependencies and "
-               "are not decided; float-driven index arithmetic in the terminal sparkline is not decided")
+               "are not decided; the sparkline index is discharged by shape (normalise-then-scale), assuming each value lies between the folded min and max")
     chk.exhaustive = False
 
     bodies = sink_bodies(P)
@@ -237,6 +233,32 @@ def run(chk):
                     pass
         return True, "", [b.span for b in bs]
     chk.ob("C13.R5:file-record", "the file writer opens and closes each fixed field with the same label, inside one record", file_record)
+
+
+    # ---- R5: the "needs no escaping" hint is only ever put on constant identifier labels ------------------------------
+    def ident_tags():
+        n = 0
+        for b in P.bodies.values():
+            if b.crate not in ("emit_file", "emit_otlp", "emit_term"):
+                continue
+            for c in b.calls(normal_only=True):
+                if c.callee.get("name") != "with_tag" or "Label" not in (c.callee.get("full") or c.callee.get("path") or ""):
+                    continue
+                n += 1
+                recv = b.origin(c.args[0])
+                ok = False
+                if recv[0] == "call" and recv[1].callee.get("name") == "new" and recv[1].args:
+                    v = mir.o_const_value(b.origin(recv[1].args[0]))
+                    if isinstance(v, str) and re.match(r"^[A-Za-z_][A-Za-z0-9_]*$", v):
+                        ok = True
+                if not ok:
+                    return False, ("a label built from %s is tagged at %s (VALUE_IDENT tells sval_json the text needs no escaping): a "
+                                   "property key computed at run time can contain quotes, backslashes or newlines and would be "
+                                   "written raw, breaking the one-valid-JSON-object-per-line output" % (o_str(recv), c.loc)), [], c.loc
+        if n < 20:
+            raise mir.AnchorMissing("Label::with_tag sites (found %d)" % n)
+        return True, "", ["%d tagged labels, all Label::new(<identifier literal>)" % n]
+    chk.ob("C13.R5:identifier-tags", "only labels that are identifier literals carry the no-escaping hint; computed keys are escaped", ident_tags)
 
     common.arg_agreement_rule(chk, P, "C13", [("emit_otlp", None), ("emit_term", None)], 30)
     return chk
